@@ -20,7 +20,7 @@ use std::fs::{self, canonicalize, create_dir_all, read_link, File, Metadata};
 use std::io::ErrorKind;
 use std::os::unix::ffi::OsStrExt;
 use std::os::unix::fs::{FileTypeExt, MetadataExt};
-use std::path::{Component, Path, PathBuf};
+use std::path::{absolute, Component, Path, PathBuf};
 use std::sync::Arc;
 use std::sync::atomic::{AtomicBool, Ordering};
 
@@ -414,11 +414,14 @@ pub fn tree_walker(
             // sources then end up in one file would depend on which
             // is copied first, and on whether the other exists yet.
             if !meta.is_dir() {
-                let here = lexical(&target);
+                // (Made absolute first: the text of a link may be,
+                // whatever way the destination was named.)
+                let here = lexical(&absolute(&target).unwrap_or(target.clone()));
                 let mut clash = through_links.contains(&here);
                 if meta.is_file() {
                     if let Ok(text) = read_link(&target) {
-                        let via = lexical(&target.parent().unwrap_or(Path::new("")).join(text));
+                        let via = here.parent().unwrap_or(Path::new("")).join(text);
+                        let via = lexical(&via);
                         clash = clash || (via != here && spelled.contains(&via));
                         through_links.insert(via);
                     }
